@@ -13,6 +13,7 @@ def tlc_expect(progs, name, timeout=1800):
     path = os.path.join(d, "progs.ndjson")
     with open(path, "w") as f:
         for p in progs:
+            p.setdefault("hasfwd", False)
             f.write(json.dumps(p) + "\n")
     r = vf.tlc("XrCore", "XrCore.cfg", "core-" + name, workers=1, env={"PROGS": path},
                timeout=timeout, xmx="6g")
@@ -86,6 +87,11 @@ def compare(p, case, obs):
     if oc in ("crash", "timeout", "missing") or oc.endswith("panic"):
         return [("outcome", "a value, an error value or a violation", oc + ": " + json.dumps(
             {k: v for k, v in (obs or {}).items() if k in ("compile", "inst", "calls", "crash")})[:400])]
+    if case.get("static", "ok") != "ok":
+        if oc != "compile_err" or obs["compile"].get("class") != case["static"]:
+            return [("compile", "rejected with " + case["static"],
+                     oc + " " + str(obs.get("compile", {}).get("class")) + " " + obs.get("compile", {}).get("msg", "")[:200])]
+        return []
     if oc == "compile_err":
         return [("compile", "accepted (the program is well-typed by construction)",
                  obs["compile"].get("msg", "")[:300])]
@@ -96,7 +102,10 @@ def compare(p, case, obs):
     if oc.startswith("inst_"):
         return [("instantiate outcome", "ok", oc)]
     vals = obs.get("values", {})
+    last = {}
     for b in case["binds"]:
+        last[b["n"]] = b          # a shadowed top-level binding is no longer visible to the host
+    for b in last.values():
         got = norm_dump(vals.get(b["n"]))
         if not same(b["v"], got):
             diffs.append(("binding " + b["n"], b["v"], got))
@@ -144,7 +153,7 @@ def run_core(chk, progs, name, trace=False, limits_of=None, classify=None, nontr
     n_taint = 0
     for p, j in zip(progs, jobs):
         c = cases[p["id"]]
-        if c["taint"]:
+        if c["taint"] and c.get("static", "ok") == "ok":
             n_taint += 1
             continue
         obs = res.get(p["id"])
